@@ -12,6 +12,13 @@ quantified everywhere.
 namespace C05
 open Builder
 
+/-- the cook functions of the current source perform their state updates and workspace operations in
+the order the model was transcribed from -/
+theorem source_order_matches :
+    Consts.C01.buildCalls = expectedBuildCalls ∧ Consts.C01.prepareCalls = expectedPrepareCalls ∧
+    Consts.C01.packageCalls = expectedPackageCalls ∧ Consts.C01.checkoutCalls = expectedCheckoutCalls := by
+  decide
+
 /-- the source order of `_cookBuildStep` / `_preparePackageStep` invalidates the stored state before
 a prune empties the workspace (constants regenerated from the current source) -/
 theorem prune_invalidates_first :
